@@ -209,6 +209,19 @@ func (w *World) loadPtr(st *State, v *Val, ptrT types.Type) *Val {
 		t := w.loadLoc(st, l)
 		out := &Val{T: w.sc.define("ld", t), Typ: et}
 		w.assumeLoaded(st, out)
+		if l.kind == "field" && len(l.path) == 0 && w.topEntry != nil {
+			// a field that has not been written since the function was entered holds what it held then: a
+			// reference to an object that existed at entry
+			if h := w.hget(st, w.fieldKey(l.styp, l.field)); strings.HasSuffix(h.S, "@0") || strings.HasSuffix(h.S, "@0|") {
+				a0 := w.hget(w.topEntry, allocKey)
+				switch et.Underlying().(type) {
+				case *types.Pointer, *types.Map:
+					w.sc.assume(implies(st.cond, le(out.T, a0)))
+				case *types.Slice:
+					w.sc.assume(implies(st.cond, le(sarr(out.T), a0)))
+				}
+			}
+		}
 		return out
 	}
 	// whole struct object
